@@ -240,7 +240,7 @@ fn write_entry(
         low_res_scale,
     } = entry.specs;
 
-    file_format.write_header(w, &EntryHeaderData {
+    file_format.write_header(w, emitter, &EntryHeaderData {
         rt_width, rt_height, rt_format, colorkey,
         offset_x, offset_y,
         memory_priority,
@@ -291,7 +291,7 @@ fn write_entry(
     if let Some(texture_data) = &entry.texture_data {
         let texture_metadata = entry.texture_metadata.as_ref().expect("always Some if texture_data is");
         texture_offset = w.pos()? - entry_pos;
-        write_texture(w, texture_data, texture_metadata)?;
+        write_texture(w, emitter, texture_data, texture_metadata)?;
     };
 
     let end_pos = w.pos()?;
@@ -385,13 +385,13 @@ fn read_texture(f: &mut BinReader, emitter: &impl Emitter, with_images: bool) ->
 }
 
 #[inline(never)]
-fn write_texture(f: &mut BinWriter, data: &TextureData, metadata: &TextureMetadata) -> WriteResult {
+fn write_texture(f: &mut BinWriter, emitter: &dyn Emitter, data: &TextureData, metadata: &TextureMetadata) -> WriteResult {
     f.write_all(b"THTX")?;
 
     f.write_u16(0)?;
-    f.write_u16(metadata.format as _)?;
-    f.write_u16(metadata.width as _)?;
-    f.write_u16(metadata.height as _)?;
+    f.write_u16(llir::header_field(emitter, "img_format", metadata.format)?)?;
+    f.write_u16(llir::header_field(emitter, "img_width", metadata.width)?)?;
+    f.write_u16(llir::header_field(emitter, "img_height", metadata.height)?)?;
 
     f.write_u32(data.data.len() as _)?;
     f.write_all(&data.data)?;
@@ -490,7 +490,7 @@ impl FileFormat {
         }
     }
 
-    fn write_header(&self, f: &mut BinWriter, header: &EntryHeaderData) -> WriteResult {
+    fn write_header(&self, f: &mut BinWriter, emitter: &dyn Emitter, header: &EntryHeaderData) -> WriteResult {
         if self.version.is_old_header() {
             // old format
             f.write_u32(header.num_sprites as _)?;
@@ -514,15 +514,15 @@ impl FileFormat {
         } else {
             // new format
             f.write_u32(header.version as _)?;
-            f.write_u16(header.num_sprites as _)?;
-            f.write_u16(header.num_scripts as _)?;
+            f.write_u16(llir::header_field(emitter, "number of sprites", header.num_sprites)?)?;
+            f.write_u16(llir::header_field(emitter, "number of scripts", header.num_scripts)?)?;
             f.write_u16(0)?;
-            f.write_u16(header.rt_width as _)?;
-            f.write_u16(header.rt_height as _)?;
-            f.write_u16(header.rt_format as _)?;
+            f.write_u16(llir::header_field(emitter, "rt_width", header.rt_width)?)?;
+            f.write_u16(llir::header_field(emitter, "rt_height", header.rt_height)?)?;
+            f.write_u16(llir::header_field(emitter, "rt_format", header.rt_format)?)?;
             f.write_u32(header.name_offset as _)?;
-            f.write_u16(header.offset_x as _)?;
-            f.write_u16(header.offset_y as _)?;
+            f.write_u16(llir::header_field(emitter, "offset_x", header.offset_x)?)?;
+            f.write_u16(llir::header_field(emitter, "offset_y", header.offset_y)?)?;
             f.write_u32(header.memory_priority as _)?;
             f.write_u32(header.thtx_offset.map(NonZeroU64::get).unwrap_or(0) as _)?;
             f.write_u16(header.has_data as _)?;
